@@ -571,7 +571,22 @@ fn outcome_diff(expected: &Outcome, got: &Outcome) -> &'static str {
         (Res::Data(Some(b)), Res::Data(None)) if b.is_empty() => "empty-became-absent",
         (Res::Data(_), Res::Data(_)) => "value-altered",
         (Res::Status(_), Res::Status(_)) => "status-altered",
-        (Res::List(ka, _), Res::List(kb, _)) if ka != kb => "keys-altered",
+        (Res::List(ka, _), Res::List(kb, _)) if ka != kb => {
+            let mut dedup = ka.clone();
+            dedup.dedup();
+            let (mut sa, mut sb) = (ka.clone(), kb.clone());
+            sa.sort();
+            sb.sort();
+            if &dedup == kb {
+                "keys-deduplicated"
+            } else if sa == sb {
+                "keys-reordered"
+            } else if kb.len() < ka.len() {
+                "keys-dropped"
+            } else {
+                "keys-altered"
+            }
+        }
         (Res::List(..), Res::List(..)) => "next-cursor-altered",
         (Res::Err(_), Res::Err(_)) => "error-altered",
         (Res::Err(_), _) => "error-became-success",
@@ -956,8 +971,23 @@ pub fn alphabets(tier: Tier) -> Alphabets {
     let mut keys = vec!["".to_string(), "a".to_string(), "é/ü".to_string(), "k".repeat(1024), "nul\0key".to_string(), "🦀".to_string(), "q\"\\\n\t\u{7f}".to_string()];
     let mut values = vec![vec![], vec![0u8], vec![255u8], vec![0, 255, 1, 254, 128], (0..=255u8).collect(), pattern(64 * 1024)];
     let mut cursors = vec![0u64, 1, 2, 1 << 32, (1 << 53) + 1, 1 << 63, u64::MAX];
-    let mut resp_values = vec![None, Some(vec![]), Some(vec![0u8]), Some(vec![7, 0, 255, 128]), Some((0..=255u8).collect()), Some(pattern(64 * 1024))];
-    let mut pages = vec![vec![], vec![String::new()], vec!["a".to_string(), "é/ü".to_string(), "nul\0key".to_string()], (0..1000).map(|i| format!("key-{i}-é")).collect()];
+    let mut resp_values = vec![None, Some(vec![]), Some(vec![0u8]), Some(vec![7, 0, 255, 128]), Some(vec![7, 7, 0, 0, 7, 7]), Some((0..=255u8).collect()), Some(pattern(64 * 1024))];
+    let p = |v: &[&str]| v.iter().map(|x| x.to_string()).collect::<Vec<String>>();
+    let mut pages = vec![
+        vec![],
+        vec![String::new()],
+        p(&["a", "é/ü", "nul\0key"]),
+        (0..1000).map(|i| format!("key-{i}-é")).collect(),
+        // a page is a list, not a set: order, repeats and near-duplicates are the shell's business
+        p(&["item:1", "item:2", "item:2", "item:3"]), // adjacent duplicate
+        p(&["same", "same", "same"]),                 // nothing but duplicates
+        p(&["a", "b", "a", "c", "b"]),                // non-adjacent repeats
+        p(&["m", "z", "a", "k"]),                     // unsorted
+        p(&["d", "c", "b", "a"]),                     // reverse-sorted
+        p(&["", "", "x", ""]),                        // empty-string keys, repeated
+        p(&["Key", "key", "KEY", "key ", "key", " key", "key\t"]), // differ in case / whitespace only
+        p(&["other:1", "zzz", "a"]),                  // keys that do not match the requested prefix
+    ];
     let uni = "é/ü ∑ \"quoted\" \\ message\n".to_string();
     let errors = vec![ErrShape::Io(String::new()), ErrShape::Io(uni.clone()), ErrShape::Timeout, ErrShape::CursorNotFound, ErrShape::Other(String::new()), ErrShape::Other(uni)];
     if tier == Tier::Thorough {
@@ -965,7 +995,12 @@ pub fn alphabets(tier: Tier) -> Alphabets {
         values.extend([b"null".to_vec(), vec![0u8; 4096], pattern(1024 * 1024)]);
         cursors.extend([(1 << 31) - 1, (1 << 32) - 1, 1 << 53, u64::MAX - 1, i64::MAX as u64]);
         resp_values.extend([Some(b"None".to_vec()), Some(vec![0u8; 4096]), Some(pattern(1024 * 1024))]);
-        pages.extend([vec!["k".repeat(64 * 1024)], vec!["same".to_string(), "same".to_string()]]);
+        pages.extend([vec!["k".repeat(64 * 1024)], {
+            // a long page with an adjacent duplicate in the middle and a repeat of the first key at the end
+            let mut v: Vec<String> = (0..1000).map(|i| format!("key-{}", i / 2 * 2)).collect();
+            v.push("key-0".to_string());
+            v
+        }]);
     }
     Alphabets { keys, values, cursors, resp_values, pages, errors }
 }
@@ -1142,7 +1177,7 @@ pub fn run(tier: Tier) -> i32 {
             "cursors": a.cursors.iter().map(|c| c.to_string()).collect::<Vec<_>>(),
             "response_values (get/set/delete)": a.resp_values.iter().map(|v| match v { None => json!("absent"), Some(b) => describe_bytes(b) }).collect::<Vec<_>>(),
             "response_exists": [true, false],
-            "response_pages (x every cursor as next_cursor)": a.pages.iter().map(|p| if p.len() <= 3 && p.iter().all(|k| k.len() < 64) { json!(p) } else { json!(format!("{} keys, {} bytes in total", p.len(), p.iter().map(String::len).sum::<usize>())) }).collect::<Vec<_>>(),
+            "response_pages (x every cursor as next_cursor; lists, not sets: adjacent duplicates, repeats, unsorted, reverse-sorted, empty keys, case/whitespace variants, keys outside the prefix)": a.pages.iter().map(|p| if p.len() <= 8 && p.iter().all(|k| k.len() < 64) { json!(p) } else { json!(format!("{} keys, {} bytes in total", p.len(), p.iter().map(String::len).sum::<usize>())) }).collect::<Vec<_>>(),
             "response_errors": a.errors.iter().map(|e| format!("{e:?}")).collect::<Vec<_>>(),
             "apis": ["capability API with callback", "capability API async (through Compose)", "command API"],
             "hosts": ["typed Core", "typed AppTester", "directly held Command (command API only)", "bincode Bridge (shell side encoded by hand)", "JSON BridgeWithSerializer (shell side built by hand)"],
